@@ -230,9 +230,25 @@ func cmdCheck(args []string) {
 		}
 	}
 	// vacuity
+	// vacuity: the entry of every procedure and at least one of its exits must be reachable
+	exitsOK := map[string]bool{}
+	hasExit := map[string]bool{}
 	for _, ob := range probes {
-		if ob.Status == "unsat" {
-			fmt.Printf("BROKEN: vacuous contract: %s\n", ob.Name)
+		if strings.Contains(ob.Name, ":vacuity.entry") {
+			if ob.Status == "unsat" {
+				fmt.Printf("BROKEN: vacuous contract (requires/assumes are contradictory): %s\n", ob.Name)
+				exit = 2
+			}
+			continue
+		}
+		hasExit[ob.Proc] = true
+		if ob.Status != "unsat" {
+			exitsOK[ob.Proc] = true
+		}
+	}
+	for pr := range hasExit {
+		if !exitsOK[pr] {
+			fmt.Printf("BROKEN: vacuous contract (no exit of %s is reachable)\n", pr)
 			exit = 2
 		}
 	}
